@@ -1363,7 +1363,7 @@ pub fn run_check(tier_name: &str, seed: u64, verif_dir: &str) -> i32 {
             "faulty_edit_on_already_invalid_project_skipped": stats.fault_not_faulty,
             "relation_checks": stats.relation_checks,
             "relation_skipped": stats.relation_skipped,
-            "cli_runs": stats.cli_runs, "cli_skipped": stats.cli_skipped,
+            "cli_runs": stats.cli_runs, "cli_runs_with_unwritable_stderr": stats.cli_bad_stderr, "cli_skipped": stats.cli_skipped,
             "reference_runs": stats.reference_runs, "reference_panics": stats.reference_panics,
             "distinct_trees": stats.trees.len(),
             "logical_steps": stats.calls,
